@@ -2,7 +2,6 @@ package tparsetime
 
 import (
 	"fmt"
-	"strconv"
 	"strings"
 	"time"
 )
@@ -24,23 +23,10 @@ func parseRFC3339Timestamp(timeStr string, timezoneCache map[string]*time.Locati
 	hour := atoi2(t[11:13])
 	min := atoi2(t[14:16])
 	sec := atoi2(t[17:19])
-	var frac float64
 	fracStr, tzStr := splitFractionAndTimezone(t[19:])
-	switch len(fracStr) - 1 {
-	case -1:
-		frac = 0.0
-	case 3:
-		frac = atof3(fracStr)
-	case 6:
-		frac = atof6(fracStr)
-	case 9:
-		frac = atof9(fracStr)
-	default:
-		f, err := strconv.ParseFloat(fracStr, 64)
-		if err != nil {
-			return time.Now(), fmt.Errorf("invalid fraction '%s': %w", fracStr, err)
-		}
-		frac = f
+	nsec, fracErr := parseFractionNanos(fracStr)
+	if fracErr != nil {
+		return time.Now(), fmt.Errorf("invalid fraction '%s': %w", fracStr, fracErr)
 	}
 	var location *time.Location
 	if len(tzStr) > 0 {
@@ -64,7 +50,28 @@ func parseRFC3339Timestamp(timeStr string, timezoneCache map[string]*time.Locati
 	} else {
 		location = time.Local
 	}
-	return time.Date(year, time.Month(month), date, hour, min, sec, int(frac*1000000000.0), location), nil
+	return time.Date(year, time.Month(month), date, hour, min, sec, nsec, location), nil
+}
+
+// parseFractionNanos converts a fraction such as ".866915" to nanoseconds using integer arithmetic only
+//
+// Digits beyond the ninth are ignored, as time.Parse does.
+func parseFractionNanos(fracStr string) (int, error) {
+	if len(fracStr) == 0 {
+		return 0, nil
+	}
+	digits := fracStr[1:]
+	if len(digits) == 0 {
+		return 0, fmt.Errorf("no digits")
+	}
+	nsec := 0
+	for i := 0; i < 9; i++ {
+		nsec *= 10
+		if i < len(digits) {
+			nsec += int(digits[i] - '0')
+		}
+	}
+	return nsec, nil
 }
 
 // splitFractionAndTimezone splits e.g. ".123+07:00" to .123 and +07:00
